@@ -63,7 +63,12 @@ class Env(object):
                 f.write("a\n1\n")
         # with_wd: True (absolute directory), False (None) or "empty" (the empty string, which is what the command-line
         # tool passes for a command file named without a directory: relative paths are then relative to the cwd)
-        self.wd = "" if with_wd == "empty" else (self.tmp if with_wd else None)
+        # "relative": a working directory given relative to the current directory (which is then the scratch directory)
+        self.wd = "" if with_wd == "empty" else "wdir" if with_wd == "relative" else (self.tmp if with_wd else None)
+        for base in (os.path.join(self.tmp, "wdir"), os.path.join(self.tmp, "wdir", "wdir")):
+            os.makedirs(os.path.join(base, "data"))
+            with open(os.path.join(base, "data", "x.csv"), "w") as f:
+                f.write("a\n1\n")
         self.prog = Program(libraries=tuple(EEMS_CSV_LIBRARIES) + ("vlib_verif",), working_dir=self.wd)
         lib = self.prog.command_library
 
@@ -181,7 +186,9 @@ def make_raw(spec, env, nested=False):
                 "parent_existing": os.path.join("..", os.path.basename(env.tmp), "data", "x.csv"),
                 "parent_shadow": os.path.join("..", "data", "x.csv"),
                 "dotslash_existing": os.path.join(".", "data", "x.csv"), "dotfile_existing": ".hidden.csv",
-                "spaces_existing": os.path.join("data", "with space é.csv")}
+                "spaces_existing": os.path.join("data", "with space é.csv"),
+                # a relative path that begins with the very name of a relative working directory
+                "named_like_wd": os.path.join("wdir", "data", "x.csv")}
         return base[spec["kind"]]
     raise ValueError(t)
 
@@ -431,7 +438,7 @@ def check_case(case, rec):
     env = Env(case["wd"])
     cwd = os.getcwd()
     try:
-        if case["wd"] == "empty":
+        if case["wd"] in ("empty", "relative"):
             os.chdir(env.tmp)
         return _check(case, rec, env)
     finally:
@@ -446,7 +453,7 @@ def _check(case, rec, env):
     pristine = make_raw(rspec, env)
     before = env.state()
     vlog.reset()
-    sig = "%s|%s|%s" % (param_kind(pspec), raw_kind(rspec), "emptywd" if case["wd"] == "empty" else ("wd" if case["wd"] else "nowd"))
+    sig = "%s|%s|%s" % (param_kind(pspec), raw_kind(rspec), "emptywd" if case["wd"] == "empty" else "relwd" if case["wd"] == "relative" else ("wd" if case["wd"] else "nowd"))
     fails = []
     k1, v1 = do_clean(param, raw, env)
     rec.label("param:" + pspec["c"])
@@ -492,7 +499,7 @@ def _check(case, rec, env):
     k2, v2 = do_clean(param, raw, env)
     if k2 != k1 or (k1 == "value" and not same(v1, v2)) or (k1 == "error" and type(v1) is not type(v2)):
         fails.append(Failure("%s|not_deterministic" % sig, "first %r, second %r" % ((k1, v1), (k2, v2))))
-    if k1 == "value" and (pspec["c"] != "Path" or case["wd"] is True):
+    if k1 == "value" and ("Path" not in param_kind(pspec) or case["wd"] is True):
         k3, v3 = do_clean(param, v1, env)
         if k3 != "value" or not same(v3, v1):
             fails.append(Failure("%s|not_idempotent" % sig, "clean(v)=%r, clean(clean(v))=%r" % (v1, v3 if k3 == "value" else (k3, type(v3).__name__))))
@@ -537,7 +544,7 @@ RAW_POOL = [
     S("PData"), S("PFuzzy"), S("PNum"), S("USrc"), S("UNoOut"), S("URead"), S("UFz"), S("UPrint"), S("Missing"), S("café"),
     {"t": "path", "kind": "abs_existing"}, {"t": "path", "kind": "abs_missing"}, {"t": "path", "kind": "rel_existing"},
     {"t": "path", "kind": "rel_missing"}, {"t": "path", "kind": "parent_existing"}, {"t": "path", "kind": "parent_shadow"},
-    {"t": "path", "kind": "dotslash_existing"}, {"t": "path", "kind": "dotfile_existing"}, {"t": "path", "kind": "spaces_existing"},
+    {"t": "path", "kind": "dotslash_existing"}, {"t": "path", "kind": "dotfile_existing"}, {"t": "path", "kind": "spaces_existing"}, {"t": "path", "kind": "named_like_wd"},
     L(), L(I(1), I(2)), L(Fl(2.5), Fl(0.5)), L(I(3), I(1), I(2)), L(S("b"), S("a")), L(L(I(2), I(1)), L(I(0))), L(Fl(0.5), S("2")), L(S("a"), S("b")), L(S("true"), I(0)), L(L(I(1)), L(I(2), Fl(3.5))), L(L()),
     L(S("PData"), S("UFz")), L(S("PData"), S("Missing")), L(L(S("PData")), L(S("PFuzzy"), S("URead"))),
     {"t": "listarg", "items": [I(1), S("2")]}, {"t": "listarg", "items": [{"t": "listarg", "items": [I(1)]}, {"t": "listarg", "items": []}]},
@@ -575,8 +582,8 @@ def matrix_cases(ctx):
                 continue
             if r["t"] == "npnum" and "Number" not in param_kind(p) and p["c"] != "Parameter":
                 continue  # numpy scalars are handed over where numbers are expected; nobody passes one as a path or a data type
-            for wd in (True, False, "empty"):
-                if wd == "empty" and not ("Path" in param_kind(p) and (r["t"] in ("path", "str") or r["t"].startswith("list"))):
+            for wd in (True, False, "empty", "relative"):
+                if wd in ("empty", "relative") and not ("Path" in param_kind(p) and (r["t"] in ("path", "str") or r["t"].startswith("list"))):
                     continue  # the working directory only matters for paths
                 yield {"param": p, "raw": r, "wd": wd}
 
@@ -594,7 +601,7 @@ def raw_scalars():
         st.sampled_from(["PData", "PFuzzy", "PNum", "USrc", "UNoOut", "URead", "UFz", "UPrint", "Nope", "True", "FALSE", "Float", "Integer"]).map(S),
         st.sampled_from(["PData", "PFuzzy", "PNum", "USrc", "UNoOut", "URead", "UFz", "UPrint"]).map(lambda n: {"t": "cmd", "name": n}),
         st.sampled_from(["abs_existing", "abs_missing", "rel_existing", "rel_missing", "parent_existing", "parent_shadow",
-                         "dotslash_existing", "dotfile_existing", "spaces_existing"]).map(lambda k: {"t": "path", "kind": k}),
+                         "dotslash_existing", "dotfile_existing", "spaces_existing", "named_like_wd"]).map(lambda k: {"t": "path", "kind": k}),
     )
 
 
@@ -613,7 +620,7 @@ def raws():
 
 def generated_cases():
     return st.builds(lambda p, r, wd: {"param": p, "raw": r, "wd": wd}, st.sampled_from(param_specs()), raws(),
-                     st.sampled_from([True, True, False, False, "empty"]))
+                     st.sampled_from([True, True, False, False, "empty", "relative"]))
 
 
 # ---------------------------------------------------------------------------- values that look alike
